@@ -8,6 +8,7 @@ import (
 	"bufio"
 	"encoding/json"
 	"fmt"
+	"hash/crc32"
 	"os"
 	"regexp"
 	"strings"
@@ -449,14 +450,24 @@ func (r *seqRunner) apply(op J) (res gts.Sequence, perr interface{}) {
 	return nil, "unknown op " + asStr(op["op"])
 }
 
+// runCase runs a case with defensive copies between the calls (each call is judged on its own) and, for
+// every third case, once more with the values shared between the calls, as a caller chaining operations
+// would use them (case id + "#s"): a call that writes through an argument then spoils a later call.
 func (r *seqRunner) runCase(c J) {
-	r.caseID = asStr(c["id"])
+	r.runCaseMode(c, asStr(c["id"]), asBool(c["shared"]))
+	if !asBool(c["pure"]) && !asBool(c["shared"]) && crc32.ChecksumIEEE([]byte(asStr(c["id"])))%3 == 0 {
+		r.runCaseMode(c, asStr(c["id"])+"#s", true)
+	}
+}
+
+func (r *seqRunner) runCaseMode(c J, caseID string, shared bool) {
+	r.caseID = caseID
 	sharedBufs = map[string][]byte{}
 	sharedTables = map[string]gts.FeatureSlice{}
 	r.recs = map[string]gts.Sequence{}
 	r.order = nil
 	r.pure = asBool(c["pure"])
-	r.shared = asBool(c["shared"])
+	r.shared = shared
 	r.ext = !asBool(c["noext"])
 	r.emit(J{"ev": "case"})
 	for _, x := range asList(c["recs"]) {
